@@ -209,7 +209,7 @@ def mon_c02(tr):
     out = []
     for i, st in enumerate(tr.steps):
         rq = st["req"]
-        if not rq or not st["after"] or st["panic"]:
+        if not rq or not st["after"] or st["panic"] or rq.get("sched"):
             continue
         kb = st["before"]["keys"].get(rq["key"], dict(locked=0, cur=None, holders=[], waiters=[]))
         ka = st["after"]["keys"].get(rq["key"], dict(locked=0, cur=None, holders=[], waiters=[]))
@@ -493,7 +493,7 @@ def mon_c15(tr):
     out = []
     for i, st in enumerate(tr.steps):
         rq = st["req"]
-        if not rq or not st["after"] or st["panic"]:
+        if not rq or not st["after"] or st["panic"] or rq.get("sched"):
             continue
         kb = st["before"]["keys"].get(rq["key"])
         ka = st["after"]["keys"].get(rq["key"])
